@@ -36,6 +36,8 @@ Section Agg.
     rep_log : list A           (* samples of all completed Report calls, in order *)
   }.
 
+  (* The destination starts EMPTY: NewPhout creates (truncates) the file, the file data sink
+     opens with O_TRUNC - whatever an earlier run left there is gone. *)
   Definition init : st :=
     {| queue := []; buf := []; sink := []; dropped := 0; cancelled := false; ph := Running;
        closed := false; acc_log := []; rep_log := [] |}.
